@@ -179,7 +179,13 @@ def literal_skeletons():
     S.append(dict(name='multiline', clauses=[(F('route', *ml_args), TRUE)], source=ml_src, facts={},
                   query=('route', [('fixed', A('hub'))] + [('fixed', ('sym', 0)), ('fixed', ('sym', 1))] + [('fixed', V('Q%d' % k)) for k in range(3, 13)]
                          + ['any', ('fixed', A('end'))])))
+    sk('lookalike', [(F('p', F('point', A('a,b')), C(1)), TRUE), (F('p', F('point', A('a'), A('b')), C(2)), TRUE),
+                     (F('p', F('tag', A('X')), C(3)), TRUE), (F('p', F('tag', X), C(4)), TRUE),
+                     (F('p', L(A('x,y')), C(5)), TRUE), (F('p', L(A('x'), A('y')), C(6)), TRUE),
+                     (F('p', F('f', A('x1')), C(7)), TRUE), (F('p', F('f', _(9)), C(8)), TRUE)],
+       ('p', ['any', 'any']))
     sk('anon',
+
 
  [(F('p', _(1), _(2), F('f', _(3))), TRUE)],
        ('p', ['any', 'any', 'any']))
